@@ -6,6 +6,9 @@ pub assume_specification<T, U, F: FnOnce(T) -> U>[ Option::<T>::map_or ](o: Opti
 pub assume_specification<T, U, D: FnOnce() -> U, F: FnOnce(T) -> U>[ Option::<T>::map_or_else ](o: Option<T>, default: D, f: F) -> (r: U)
     requires o is Some ==> f.requires((o->Some_0,)), o is None ==> default.requires(()),
     ensures o is None ==> default.ensures((), r), o is Some ==> f.ensures((o->Some_0,), r);
+pub assume_specification<T, E, U, D: FnOnce(E) -> U, F: FnOnce(T) -> U>[ Result::<T, E>::map_or_else ](o: Result<T, E>, default: D, f: F) -> (r: U)
+    requires o is Ok ==> f.requires((o->Ok_0,)), o is Err ==> default.requires((o->Err_0,)),
+    ensures o is Err ==> default.ensures((o->Err_0,), r), o is Ok ==> f.ensures((o->Ok_0,), r);
 pub assume_specification<T, P: FnOnce(&T) -> bool>[ Option::<T>::filter ](o: Option<T>, p: P) -> (r: Option<T>)
     requires o is Some ==> p.requires((&o->Some_0,)),
     ensures o is None ==> r is None, o is Some ==> (r is None || r == o), o is Some ==> (p.ensures((&o->Some_0,), true) ==> r == o);
